@@ -4,6 +4,7 @@ the loop fuel `|b| + 1` is never exhausted, because every successful ReadValue c
 (the model's `bug` arm) and at most the remaining input.
 -/
 import JsonV.Lemmas.WireFuel
+import JsonV.Model.TokenLoop
 
 namespace JsonV.Lemmas.DepthTerm
 open JsonV JsonV.Model JsonV.Model.Wire JsonV.Model.Validate
@@ -39,5 +40,172 @@ theorem streamLoop_no_fuel (o : VOpts) (vfuel : Nat) : ∀ (fuel : Nat) (r : Byt
 /-- the ReadValue loop over any input never reports the artificial out-of-fuel class -/
 theorem stream_no_fuel (o : VOpts) (b : Bytes) : (stream o b).2.2 ≠ .fuel :=
   streamLoop_no_fuel o (fuelFor b) (b.length + 1) b 0 0 (by simp [fuelFor]) (Nat.le_refl _)
+
+end JsonV.Lemmas.DepthTerm
+
+/-! ### the ReadToken loop (Model/TokenLoop.lean): every token consumes at least one byte and at most the
+remaining input, and no lexer reports the out-of-fuel class — so the loop fuel `|b| + 1` is never exhausted -/
+
+namespace JsonV.Lemmas.DepthTerm
+open JsonV JsonV.Model JsonV.Model.Wire JsonV.Model.Validate JsonV.Model.TokenLoop
+open JsonV.Lemmas.WireValue JsonV.Lemmas.WireFuel
+
+/-- an error is not `fuel`; a token ends within `B` -/
+def Bnd (B : Nat) : TRes → Prop
+  | .err _ e => e ≠ .fuel
+  | .tok n _ => n ≤ B
+
+theorem smErr_ne_fuel (e : SMErr) : smErr e ≠ .fuel := by cases e <;> simp [smErr]
+
+theorem feed_bnd (st : TState) (pos n : Nat) (op : Machine → Except SMErr Machine) : Bnd (pos + n) (feed st pos n op) := by
+  unfold feed
+  split
+  · exact smErr_ne_fuel _
+  · exact Nat.le_refl _
+
+theorem feedString_bnd (o : VOpts) (st : TState) (pos : Nat) (q : Bytes) (fl : ValueFlags) :
+    Bnd (pos + q.length) (feedString o st pos q fl) := by
+  have hgo : ∀ nss : List (List Bytes), Bnd (pos + q.length)
+      (match st.m.appendString with
+        | .error se => TRes.err pos (smErr se)
+        | .ok m' => TRes.tok (pos + q.length) { m := m', nss := nss }) := by
+    intro nss
+    split
+    · exact smErr_ne_fuel _
+    · exact Nat.le_refl _
+  unfold feedString
+  simp only
+  split
+  · split
+    · split
+      · simp [Bnd]
+      · split
+        · split
+          · simp [Bnd]
+          · split
+            · simp [Bnd]
+            · exact hgo _
+        · exact hgo _
+    · exact hgo _
+  · exact hgo _
+
+theorem bnd_mono {B B' : Nat} {t : TRes} (h : Bnd B t) (hle : B ≤ B') : Bnd B' t := by
+  cases t with
+  | err _ _ => exact h
+  | tok n _ => exact Nat.le_trans h hle
+
+theorem lexToken_bnd (o : VOpts) (st : TState) (pos : Nat) (r : Bytes) : Bnd (pos + r.length) (lexToken o st pos r) := by
+  unfold lexToken
+  cases r with
+  | nil => simp [Bnd]
+  | cons c t =>
+    have hlit : ∀ l : Bytes, l ≠ [] → Bnd (pos + (c :: t).length)
+        (if ((valueLiteral l (c :: t)).2 != .ok) = true then TRes.err (pos + (valueLiteral l (c :: t)).1) (valueLiteral l (c :: t)).2
+         else feed st pos (valueLiteral l (c :: t)).1 Machine.appendLiteral) := by
+      intro l hl
+      split
+      · exact not_bad_fuel (valueLiteral_no_fuel l (c :: t))
+      · rename_i hne
+        have hok : (valueLiteral l (c :: t)).2 = .ok := by simpa using hne
+        have := (valueLiteral_sound l (c :: t) _ hl (Prod.ext rfl hok)).1
+        exact bnd_mono (feed_bnd st pos _ _) (Nat.add_le_add_left this pos)
+    simp only
+    split
+    · exact hlit litNull (by decide)
+    · split
+      · exact hlit litFalse (by decide)
+      · split
+        · exact hlit litTrue (by decide)
+        · split
+          · -- string
+            rcases hvs : valueString o (c :: t) with ⟨n, fl, e⟩
+            simp only
+            split
+            · have := not_bad_fuel (valueString_no_fuel o (c :: t))
+              rw [hvs] at this
+              exact this
+            · rename_i hne
+              have hok : e = .ok := by simpa using hne
+              subst hok
+              have hn := (valueString_sound o (c :: t) n fl hvs).1
+              refine bnd_mono (feedString_bnd o st pos _ fl) ?_
+              simp only [List.length_take]
+              omega
+          · split
+            · -- number
+              rcases hvn : valueNumber (c :: t) with ⟨n, e⟩
+              simp only
+              split
+              · have := not_bad_fuel (valueNumber_no_fuel (c :: t))
+                rw [hvn] at this
+                exact this
+              · rename_i hne
+                have hok : e = .ok := by simpa using hne
+                subst hok
+                have hn := (valueNumber_sound (c :: t) n hvn).1
+                exact bnd_mono (feed_bnd st pos n _) (by omega)
+            · split
+              · split
+                · exact smErr_ne_fuel _
+                · simp [Bnd]
+              · split
+                · split
+                  · exact smErr_ne_fuel _
+                  · simp [Bnd]
+                · split
+                  · exact bnd_mono (feed_bnd st pos 1 _) (by simp)
+                  · split
+                    · exact bnd_mono (feed_bnd st pos 1 _) (by simp)
+                    · simp [Bnd]
+
+theorem readToken_bnd (o : VOpts) (st : TState) (r : Bytes) : Bnd r.length (readToken o st r) := by
+  unfold readToken
+  simp only
+  split
+  · simp only [Bnd]; split <;> simp
+  · rename_i c rest hd
+    have hl := len_of_drop r _ c rest hd
+    split
+    · split
+      · split <;> simp [Bnd]
+      · rename_i c1 rest1 hd1
+        have hl1 := len_of_drop rest _ c1 rest1 hd1
+        split
+        · simp [Bnd]
+        · exact bnd_mono (lexToken_bnd o st _ (c1 :: rest1)) (by simp only [List.length_cons]; omega)
+    · split
+      · simp [Bnd]
+      · exact bnd_mono (lexToken_bnd o st _ (c :: rest)) (by simp only [List.length_cons]; omega)
+
+theorem tokenLoop_no_fuel (o : VOpts) : ∀ (F : Nat) (st : TState) (r : Bytes) (cnt base : Nat),
+    r.length + 1 ≤ F → (tokenLoop o F st r cnt base).2.2 ≠ .fuel := by
+  intro F
+  induction F with
+  | zero => intro st r cnt base h; omega
+  | succ F ih =>
+    intro st r cnt base hF
+    have hb := readToken_bnd o st r
+    simp only [tokenLoop]
+    cases hrt : readToken o st r with
+    | err off e =>
+      rw [hrt] at hb
+      show e ≠ .fuel
+      exact hb
+    | tok n st' =>
+      rw [hrt] at hb
+      simp only
+      split
+      · simp
+      · rename_i hn0
+        have hpos : 0 < n := by
+          cases n with
+          | zero => simp at hn0
+          | succ k => omega
+        have hle : n ≤ r.length := hb
+        exact ih st' (r.drop n) _ _ (by simp; omega)
+
+/-- the ReadToken loop over any input never reports the artificial out-of-fuel class -/
+theorem tokens_no_fuel (o : VOpts) (b : Bytes) : (tokens o b).2.2 ≠ .fuel :=
+  tokenLoop_no_fuel o (b.length + 1) {} b 0 0 (Nat.le_refl _)
 
 end JsonV.Lemmas.DepthTerm
